@@ -285,7 +285,7 @@ class Resolver:
 
 # -- may/must "does X" with helper inlining -----------------------------------------
 
-def sites(resolver, func, pred, depth=2, must=False, _seen=None):
+def sites(resolver, func, pred, depth=2, must=False, _seen=None, assume=None):
     """AST nodes *in func* that are X-sites: nodes satisfying `pred`, plus
     calls to in-package helpers that (may | must on every normal path) reach
     an X-site, inlined to `depth`."""
@@ -300,12 +300,12 @@ def sites(resolver, func, pred, depth=2, must=False, _seen=None):
             for callee in resolver.resolve_call(n):
                 if id(callee) in _seen or callee is func:
                     continue
-                inner = sites(resolver, callee, pred, depth - 1, must, _seen | {id(func)})
+                inner = sites(resolver, callee, pred, depth - 1, must, _seen | {id(func)}, assume)
                 if not inner:
                     continue
                 if must:
                     g = cfg_of(callee)
-                    if g.every_path_from([g.entry], g.nodes_of_all(inner), skip_exc=True):
+                    if g.every_path_from([g.entry], g.nodes_of_all(inner), skip_exc=True, avoid_edges=g.assume_edges(assume) if assume else ()):
                         out.append(n)
                         break
                 else:
